@@ -2,8 +2,8 @@
 
 Scope
 -----
-(S) symbolic-real part, EXHAUSTIVE over the shapes N in 2..4 (quick) / 2..5 (thorough), K in {1,2} (thorough: also 3),
-    w full symmetric or diagonal, maximum size D in 2..N.  The REAL methods HyMMSBM.poisson_params, C, log_kappa
+(S) symbolic-real part, EXHAUSTIVE over the shapes N in 2..4 (quick) / 2..6 (thorough), K in {1,2} (thorough: also K=3
+    for N <= 5), w full symmetric or diagonal, maximum size D in 2..N.  The REAL methods HyMMSBM.poisson_params, C, log_kappa
     (through exp), expected_degree (per node / averaged; d = "all", every single size, two arrays of sizes),
     degree_sequence(expected=True), dimension_sequence(expected=True) (both with and without dyadic sizes), the private
     constants _C_prime/_C_second (only if they still exist) and the _linear_ops helpers qf/bf/qf_and_sum/bf_and_sum are
@@ -824,12 +824,12 @@ def _run_fit(ctx, cfg):
 # plans
 # --------------------------------------------------------------------------------------------------------------
 def _symbolic_plan(quick):
-    Ns = range(2, 5) if quick else range(2, 6)
+    Ns = range(2, 5) if quick else range(2, 7)
     Ks = (1, 2) if quick else (1, 2, 3)
     plan = []
     for N in Ns:
         for K in Ks:
-            if K == 3 and N > 4:
+            if K == 3 and N > 5:
                 continue
             for wk in ("full", "diagonal"):
                 if K == 1 and wk == "diagonal":
@@ -889,7 +889,7 @@ def _run(ctx):
     ctx.rule("(S) every shape N<=%d, K, w full/diagonal, D<=N: real closed forms on symbolic object arrays vs. brute force over "
              "all subsets; (N) seeded random numeric parameters with zeros, dense/csr/coo incidence; (B) 7 hypergraphs x seeds x "
              "K x assortative x prior rate x max_hye_size, fit with n_iter=1..8. A case is non-trivial if the model could be "
-             "built / fit returned (a skipped or raising case is trivial)." % (4 if ctx.quick else 5))
+             "built / fit returned (a skipped or raising case is trivial)." % (4 if ctx.quick else 6))
     ctx.assume("sympy expansion and coefficient extraction; arithmetic on symbolic entries is real arithmetic")
     ctx.assume("coefficient / relative tolerance 1e-9 for 'equal', -1e-12 for non-negativity")
     ctx.assume("'x > 0' on a symbolic expected count is decided for generic strictly positive parameters")
@@ -901,7 +901,7 @@ def _run(ctx):
         ctx.case(dict(part="S", **desc))
         _run_symbolic(ctx, desc)
     ctx.exhaustive_parts.append("symbolic identities for every shape N in 2..%d, K in %s, w full/diagonal, D in 2..N, "
-                                "all subsets of the node set as hyperedges" % ((4, "{1,2}") if ctx.quick else (5, "{1,2,3} (K=3: N<=4)")))
+                                "all subsets of the node set as hyperedges" % ((4, "{1,2}") if ctx.quick else (6, "{1,2,3} (K=3: N<=5)")))
     t_s = ctx.elapsed()
     for desc in _numeric_plan(ctx.quick, ctx.seed):
         ctx.case(dict(part="N", **desc))
